@@ -188,7 +188,7 @@ func TestMetrics(t *testing.T) {
 				hist = append(hist, "dial(udp)")
 			},
 			"dialBad": func(t *rapid.T) {
-				addr := rapid.SampledFrom([]string{"127.0.0.1:notaport", "[::1", "127.0.0.1:99999"}).Draw(t, "addr")
+				addr := rapid.SampledFrom([]string{"127.0.0.1:notaport", "[::1", "127.0.0.1:99999", "::1", "fe80::1", "2001:db8::2:1", ":623:623", "::ffff:127.0.0.1"}).Draw(t, "addr")
 				_, err := bmc.DialV2(addr)
 				m.add("bmc_connection_open_attempts_total", "version=2.0", 1)
 				if err == nil {
